@@ -321,17 +321,22 @@ func genSteps(t *rapid.T, c Case, g *model.Graph) []model.Step {
 	return mapIDs(steps, vmap, emap)
 }
 
+// phantomIDs: ids shaped like the edge of a link row with an empty-string endpoint (no
+// such edge exists). Ids that several such rows share are left out: which row a lookup
+// would answer with is not defined.
 func phantomIDs(c Case, g *model.Graph) []string {
 	gp, bad := abstractWith(c, true)
 	if bad != "" {
 		return nil
 	}
-	var out []string
-	seen := map[string]bool{}
+	n := map[string]int{}
 	for _, e := range gp.E {
-		if g.EdgeByID(e.ID) == nil && !seen[e.ID] {
-			seen[e.ID] = true
-			out = append(out, e.ID)
+		n[e.ID]++
+	}
+	var out []string
+	for id, k := range n {
+		if k == 1 && g.EdgeByID(id) == nil {
+			out = append(out, id)
 		}
 	}
 	sort.Strings(out)
@@ -539,7 +544,7 @@ func classifySteps(t pbt.Named, steps []model.Step) {
 // tests
 
 func TestRandom(t *testing.T) {
-	pbt.Check(t, 900, 30000, func(rt *rapid.T) {
+	pbt.Check(t, 900, 20000, func(rt *rapid.T) {
 		c := genTables(rt)
 		g, bad := abstract(c)
 		if bad != "" {
@@ -603,7 +608,7 @@ func probes(g *model.Graph) [][]model.Step {
 }
 
 func TestMapping(t *testing.T) {
-	pbt.Check(t, 160, 6000, func(rt *rapid.T) {
+	pbt.Check(t, 160, 4000, func(rt *rapid.T) {
 		c := genTables(rt)
 		g, bad := abstract(c)
 		if bad != "" {
